@@ -166,8 +166,10 @@ def main(tier, replay=None):
 
     # the cases run on the real clock (two nodes, MRP timers): a disagreement is re-run before it counts
     reruns_agreed = 0
-    for key, cl in case_by_key.items():
-        if impl.get(key) != model.get(key):
+    differing = [key for key in case_by_key if impl.get(key) != model.get(key)]
+    for key in (differing if len(differing) <= 12 else []):
+        cl = case_by_key[key]
+        if True:
             for _ in range(2):
                 again = run_lines([hbin, "run"], [cl], tag="rerun").get(key)
                 if again is not None and again == model.get(key):
@@ -202,7 +204,10 @@ def main(tier, replay=None):
         if reported.get(base, 0) >= 2:
             continue
         reported[base] = reported.get(base, 0) + 1
-        small = shrink(hbin, driver, cl, names)
+        if sum(reported.values()) > 4:
+            continue
+        # a case without an answer costs the hang timer each time it is tried: shrink those only a little
+        small = shrink(hbin, driver, cl, names, budget=(10 if any(n.startswith("no-answer") for n in names) else 70))
         i1 = run_lines([hbin, "run"], [small], tag="rep").get("R s0", "")
         m1 = run_lines([driver], [small], stdin=True).get("R s0", "")
         s1 = run_lines([driver, "spec"], [spec_input(small, i1)], stdin=True).get("R s0", "")
